@@ -25,6 +25,100 @@ def crc64_py(data, crc=0):
     return c ^ 0xFFFFFFFFFFFFFFFF
 
 
+# ---- independent arithmetic for the "huge single call" cases: CRC over a long run of zero bytes = multiplication by
+# x^(8N) modulo the polynomial (reflected representation), computed by square-and-multiply
+def _step1(c, poly):
+    return (c >> 1) ^ poly if c & 1 else c >> 1
+
+
+def _mulmod(a, b, poly, w):
+    r = 0
+    for i in range(w):
+        if (b >> (w - 1 - i)) & 1:
+            r ^= a
+        a = _step1(a, poly)
+    return r
+
+
+def _xpow(n, poly, w):
+    result, base = 1 << (w - 1), 1 << (w - 2)     # the polynomials 1 and x
+    while n:
+        if n & 1:
+            result = _mulmod(result, base, poly, w)
+        base = _mulmod(base, base, poly, w)
+        n >>= 1
+    return result
+
+
+def _raw(data, c, poly):
+    for b in data:
+        c ^= b
+        for _ in range(8):
+            c = _step1(c, poly)
+    return c
+
+
+def crc_sparse(head, nzeros, tail, w):
+    """standard CRC-w (init 0) of head ++ nzeros*b'\0' ++ tail"""
+    poly = 0xEDB88320 if w == 32 else P64
+    mask = (1 << w) - 1
+    c = _raw(head, mask, poly)
+    c = _mulmod(c, _xpow(8 * nzeros, poly, w), poly, w)
+    c = _raw(tail, c, poly)
+    return c ^ mask
+
+
+HUGE_MAP = 4 * 1024 ** 3 + 16384
+HUGE_EDGE = 8192
+
+
+def huge_edges(seed):
+    x = (seed * 2 + 1) & 0xFFFFFFFFFFFFFFFF
+    out = bytearray()
+    for _ in range(2 * HUGE_EDGE):
+        x ^= (x << 13) & 0xFFFFFFFFFFFFFFFF
+        x ^= x >> 7
+        x ^= (x << 17) & 0xFFFFFFFFFFFFFFFF
+        out.append((x >> 32) & 0xFF)
+    return bytes(out[:HUGE_EDGE]), bytes(out[HUGE_EDGE:])
+
+
+def huge_oracle(t):
+    fn, size, seed = t[1], int(t[2]), int(t[3])
+    head, tail = huge_edges(seed)
+    nz = size - 2 * HUGE_EDGE
+    if fn.startswith("crc32") or fn == "check1":
+        v = crc_sparse(head, nz, tail, 32)
+        return "%d %d" % (v, v) if fn != "check1" else "%s %s" % ((v.to_bytes(4, "little").hex(),) * 2)
+    if fn.startswith("crc64") or fn == "check4":
+        v = crc_sparse(head, nz, tail, 64)
+        return "%d %d" % (v, v) if fn != "check4" else "%s %s" % ((v.to_bytes(8, "little").hex(),) * 2)
+    if fn == "sha256":
+        import mmap
+        mm = mmap.mmap(-1, size, flags=mmap.MAP_PRIVATE | mmap.MAP_ANONYMOUS | getattr(mmap, "MAP_NORESERVE", 0))
+        try:
+            mm[:HUGE_EDGE] = head
+            mm[size - HUGE_EDGE:size] = tail
+            mv = memoryview(mm)
+            d = hashlib.sha256(mv).hexdigest()
+            mv.release()
+        finally:
+            mm.close()
+        return d
+    return "bad-op"
+
+
+def huge_cases(ctx):
+    G = 4 * 1024 ** 3
+    seed = ctx.rng.randrange(1, 1 << 30)
+    if ctx.quick():
+        return ["huge %s %d %d" % (fn, size, seed) for size in (G + 64, G + 12345) for fn in ("crc32pub", "crc64pub")]
+    out = ["huge %s %d %d" % (fn, size, seed) for size in (G - 1, G + 64, G + 12345)
+           for fn in ("crc32pub", "crc64pub", "crc32arch", "crc64arch", "crc32gen", "crc64gen")]
+    out += ["huge check1 %d %d" % (G + 12345, seed), "huge check4 %d %d" % (G + 64, seed), "huge sha256 %d %d" % (G + 64, seed)]
+    return out
+
+
 def hx(s):
     return b"" if s == "-" else bytes.fromhex(s)
 
@@ -102,6 +196,13 @@ def gen_cases(ctx):
             al = rng.randrange(64)
             lines.append("crc%d %d %d %s" % (w, al, init(w), vlib.hexs(data(n, rng.randrange(4)))))
             ctx.count("crc len<16" if n < 16 else "crc len<128" if n < 128 else "crc len>=128")
+    # every (length 0..24) x (alignment 0..15): the `size > 8` / `size > 4` guards and the alignment prologues of the
+    # generic code (buffers end exactly at the end of their allocation, so ASan sees a prologue that overruns)
+    for n in range(0, 25):
+        for al in range(16):
+            for w in (32, 64):
+                lines.append("crc%d %d %d %s" % (w, al, init(w), vlib.hexs(data(n, 0))))
+                ctx.count("crc small x alignment sweep")
     # every alignment 0..63 at a few lengths
     for al in range(64):
         for n in (9, 17, 40, 129) if quick else (5, 9, 15, 16, 17, 31, 40, 64, 129, 255, 1031):
@@ -196,6 +297,8 @@ def oracle(line):
     if t[0] in ("sha256", "sha256s"):
         d = hashlib.sha256(b"".join(hx(x) for x in t[1:])).hexdigest()
         return d + " " + d
+    if t[0] == "huge":
+        return huge_oracle(t)
     if t[0] == "check":
         cid = int(t[1]) % (1 << 32)
         msg = b"".join(hx(x) for x in t[2:])
@@ -270,6 +373,7 @@ def run(ctx):
         "CLMUL path: the model of crc_x86_clmul.h is proved equal to the reference for all inputs; the C instruction sequence is tied to that model by correspondence (column 2 of every crc32/crc64 op), intrinsics are modelled by their documented meaning; CPUID gate is a run-time fact of this machine",
         "SHA-256 theorems assume messages shorter than 2^61 bytes (the C code's 64-bit bit counter, as in FIPS 180-4)",
         "the members of the lzma_check_state union are modelled side by side (one check type per init/update/finish sequence)",
+        "byte strings are Lean Lists (unbounded length, no size_t): the theorems hold for every length, but C-level width effects on counts >= 2^32 (a mask or cast truncating size_t to 32 bits) are outside the model; they are exercised only by the 'huge single call' run (one call over 4 GiB - 1 / + 64 / + 12345 bytes vs the same buffer in ~1 GiB pieces vs independent GF(2) arithmetic / hashlib)",
     ]
     # B (first: the probes of stage G are compiled with the build's flags)
     exe = build_c(ctx)
@@ -296,6 +400,30 @@ def run(ctx):
     ctx.cov["clmul_code_present"] = present
     if not present:
         ctx.assumptions.append("this build has no CLMUL code (or the CPU cannot run it): the CLMUL theorems are vacuous here")
+    # K0: "huge single call": byte counts >= 2^32 in ONE call (size_t-width effects in the C code: masks, casts, loop
+    # bounds). The Lean theorems quantify over all List lengths, but a List has no size_t: truncation of a count to
+    # 32 bits is outside the model and is covered by this run only (one call vs ~1 GiB pieces vs independent arithmetic).
+    assert crc_sparse(b"ab", 1000, b"cd", 32) == zlib.crc32(b"ab" + bytes(1000) + b"cd")
+    assert crc_sparse(b"ab", 77, b"cd", 64) == crc64_py(b"ab" + bytes(77) + b"cd")
+    hlines = huge_cases(ctx)
+    hres = vlib.par_map(lambda ln: vlib.run_lines([exe], [ln], timeout=900), hlines, workers=min(len(hlines), 12))
+    hbad = 0
+    for ln, (rc, out, err) in zip(hlines, hres):
+        ctx.count("huge single call (>= 2^32 bytes)" if int(ln.split()[2]) >= 1 << 32 else "huge single call (2^32 - 1 bytes)")
+        got = out[0] if out else "harness-abort"
+        if got in ("mmap-failed", "unsupported-32-bit-size_t"):
+            ctx.count("huge case skipped: " + got)
+            continue
+        ctx.case(ln, True, sample={"op": ln, "impl": got} if ln.startswith("huge crc64pub") else None)
+        exp = huge_oracle(ln.split())
+        if rc != 0 or got != exp:
+            hbad += 1
+            ctx.violation("huge-" + ln.split()[1], {"kind": "one call over a buffer of about 4 GiB differs from the standard value (columns: one call, same buffer in ~1 GiB pieces)",
+                                                    "op": ln, "impl": got, "python_reference": exp, "stderr": err[-1500:],
+                                                    "how_to_replay": "./check C14 --replay <this file>"}, True)
+    ctx.cov["huge_single_call"] = {"ops": len(hlines), "failing": hbad,
+                                   "note": "counts >= 2^32 in one call are outside the List-based Lean model (no size_t there); covered by this run only"}
+    ctx.log("huge single-call cases done (%d ops, %d failing)" % (len(hlines), hbad))
     # K
     lines = gen_cases(ctx)
     parts = vlib.chunks(lines, vlib.NCPU * 2)
